@@ -118,14 +118,24 @@ def make_setting(cfg):
         return NoiseSetting(qoperation_base=tuple(base), method=noise["method"], para=dict(noise["para"]))
     cases = cfg["cases"]
     ests, algos, losses = [], [], []
+    shared_opts = {}
     for c in cases:
         if c["est"] == "linear":
             ests.append(LinearEstimator()); algos.append((None, None)); losses.append((None, None))
         elif c["est"] == "plinear":
-            ests.append(ProjectedLinearEstimator(mode_proj_order="eq_ineq")); algos.append((None, None)); losses.append((None, None))
+            ests.append(ProjectedLinearEstimator(mode_proj_order=c.get("order", "eq_ineq")))
+            algos.append((None, None)); losses.append((None, None))
         else:
             ests.append(LossMinimizationEstimator())
-            algos.append((PGDB(), pgdb_opt(c.get("eq", True), c.get("ineq", True))))
+            # cases with the same "share" key use ONE option object (options are plain configuration: sharing is harmless)
+            key = c.get("share")
+            if key is not None and key in shared_opts:
+                opt = shared_opts[key]
+            else:
+                opt = pgdb_opt(c.get("eq", True), c.get("ineq", True))
+                if key is not None:
+                    shared_opts[key] = opt
+            algos.append((PGDB(), opt))
             if c.get("loss", "fwse") == "fwse":
                 losses.append((FWSE(), FWSEO(c.get("mode", "identity"))))
             else:
@@ -134,7 +144,8 @@ def make_setting(cfg):
         true_object=ns(cfg["true"]), tester_objects=[ns(t) for t in cfg["testers"]],
         seed_qoperation=cfg["seed_q"], seed_data=cfg["seed_data"], n_sample=cfg["n_sample"], n_rep=cfg["n_rep"],
         num_data=list(cfg["num_data"]), schedules="all", case_names=[c["name"] for c in cases], estimators=ests,
-        eps_proj_physical_list=[1e-5] * len(cases), eps_truncate_imaginary_part_list=[1e-5] * len(cases),
+        eps_proj_physical_list=[cfg.get("eps_proj", 1e-5)] * len(cases),
+        eps_truncate_imaginary_part_list=[cfg.get("eps_trunc", 1e-5)] * len(cases),
         algo_list=algos, loss_list=losses, parametrizations=[c.get("para", True) for c in cases], c_sys=c_sys)
 
 
@@ -143,7 +154,8 @@ def run_flow(cfg, parallel_mode=None):
     try:
         with quiet():
             res = execute_simulation_test_settings([make_setting(cfg)], d, pdf_mode="none",
-                                                   exec_sim_check=dict(ONLY_PHYS), parallel_mode=parallel_mode)
+                                                   exec_sim_check=dict(ONLY_PHYS), parallel_mode=parallel_mode,
+                                                   is_computation_time_required=cfg.get("timing", True))
     finally:
         shutil.rmtree(d, ignore_errors=True)
     return res
@@ -359,19 +371,25 @@ def flow_clauses(ctx, g, volume):
     for ci in range(nconf):
         n_rep = int(g.integers(2, 5))
         num_data = [int(g.choice([10, 20])), int(g.choice([50, 100]))]
-        cases = list(CASES_BASIC)
+        # the loss cases of a configuration share one option object across both parametrisations; a projected linear case
+        # with the non-default projection order and without the equality constraint in the parametrisation
+        cases = list(CASES_BASIC[:3]) + [dict(CASES_BASIC[3], share="s1"),
+                                         {"name": "loss-fwse-identity-nopara", "est": "loss", "loss": "fwse", "mode": "identity",
+                                          "para": False, "share": "s1"},
+                                         {"name": "plinear-ineq_eq-nopara", "est": "plinear", "order": "ineq_eq", "para": False}]
         if ci % 2 == 1:
             cases = [CASES_BASIC[0], CASES_BASIC[2],
                      {"name": "loss-wse-invcov", "est": "loss", "loss": "wse", "mode": "inverse_sample_covariance", "para": True},
                      {"name": "loss-fwse-invcov", "est": "loss", "loss": "fwse", "mode": "inverse_sample_covariance", "para": True},
-                     {"name": "loss-eq-only", "est": "loss", "loss": "fwse", "mode": "identity", "para": False, "eq": True, "ineq": False}]
+                     {"name": "loss-eq-only", "est": "loss", "loss": "fwse", "mode": "identity", "para": False, "eq": True, "ineq": False},
+                     {"name": "plinear-ineq_eq-nopara", "est": "plinear", "order": "ineq_eq", "para": False}]
         true = [("state", "z0"), ("state", "a"), ("state", "x1")][ci % 3]
         testers = None
         st_testers = [("state", "x0"), ("state", "y0"), ("state", "z0"), ("state", "z1")]
         pv_testers = [("povm", "x"), ("povm", "y"), ("povm", "z")]
         nopara = {"name": "loss-nopara-eq", "est": "loss", "loss": "fwse", "mode": "identity", "para": False,
-                  "eq": True, "ineq": True}
-        light = [CASES_BASIC[0], CASES_BASIC[2], CASES_BASIC[3], nopara]
+                  "eq": True, "ineq": True, "share": "s1"}
+        light = [CASES_BASIC[0], CASES_BASIC[2], dict(CASES_BASIC[3], share="s1"), nopara]
         if ci % 10 == 3:        # a POVM as the unknown
             true, testers, cases = ("povm", "z"), st_testers, light
         elif ci % 10 in (4, 6):      # a gate as the unknown
@@ -380,6 +398,9 @@ def flow_clauses(ctx, g, volume):
             true, testers, cases = ("mprocess", "z-type1"), st_testers + pv_testers, light[:2]
         n_sample = 2 if (ci % 3 == 2 or (ci % 2 == 0 and not ctx.quick)) else 1
         cfg = base_cfg(g, n_rep, num_data, cases, true=true, testers=testers, n_sample=n_sample)
+        # non-default, unequal tolerances of the cases; every other configuration runs without timing
+        cfg["eps_proj"], cfg["eps_trunc"] = [(1e-4, 1e-9), (1e-7, 1e-5), (1e-5, 1e-5)][ci % 3]
+        cfg["timing"] = ci % 2 == 1
         if ci % 3 == 2:
             cfg["noise"] = {"method": "random_effective_lindbladian",
                             "para": {"lindbladian_base": "identity", "strength_h_part": 0.1, "strength_k_part": 0.1}}
